@@ -1,4 +1,6 @@
 import PT.Lemmas.Union
+import PT.Lemmas.Writes
+import PT.Lemmas.Map
 /-!
 # C08 — LPM annotations of union/difference items are true LPMs in the other view
 
@@ -84,5 +86,26 @@ theorem union_annotation (a : Tree w L) (b : Tree w R) (hwa : HasWF a) (hwb : Ha
 theorem annotation_covers {b : Tree w R} (hwb : HasWF b) (p q : Pfx w) (y : R)
     (h : lpmK b.slotEntries p = some (q, y)) : q.contains p = true :=
   (Pfx.contains_iff q p).2 ((lpmK_spec hwb p).1 q y h).2.1
+
+/-! ### agreement with a direct longest-prefix query -/
+
+/-- the annotation function of the specification is the last covering entry of the operand's tree … -/
+theorem lpmK_eq_covering (t : Tree w R) (p : Pfx w) : lpmK t.slotEntries p = (covering t p).getLast? := by
+  unfold lpmK coverK covering
+  rw [← slotEntries_snd t, List.filter_map, List.getLast?_map]
+  rfl
+
+/-- … hence, when the other operand is a whole map, exactly what `get_lpm` returns for the item's prefix -/
+theorem annotation_eq_getLpm {m : PMap w R} (h : m.TreeWF) (p : Pfx w) :
+    lpmK m.root.slotEntries p = m.getLpm p := by
+  rw [lpmK_eq_covering]
+  unfold PMap.getLpm
+  rw [Tree.getLpm_eq h.wf p none (h.rootCovers p)]
+  cases (covering m.root p).getLast? <;> rfl
+
+/-- every `difference` item against a whole map carries `get_lpm` of its prefix in that map -/
+theorem difference_annotation_eq_getLpm (a : Tree w L) {m : PMap w R} (hwa : HasWF a) (h : m.TreeWF)
+    (it : DItem w L R) (hit : it ∈ difference a m.root) : it.right = m.getLpm it.p := by
+  rw [difference_annotation a m.root hwa ⟨_, h.wf⟩ it hit, annotation_eq_getLpm h]
 
 end PT.C08
